@@ -48,6 +48,7 @@ type Outcome struct {
 	NE      []lin.Form
 	Preds   map[string]bool
 	Marks   map[string]bool
+	Events  []Event
 	// ParamConds: truth of parameter-rooted boolean cells assumed on this path
 	ParamConds map[string]bool
 	ErrNil     Tri
@@ -79,6 +80,17 @@ type Interp struct {
 	MaxPaths   int
 	MaxOut     int
 	OnReqFail  func(st *State, rq Requirement, x *ssa.Call)
+	// SumLoops: summarise counted/range loops by one symbolic iteration (closed forms with Σ symbols).
+	SumLoops bool
+	// KeyGuards: outcomes with different (canonical) guards are never merged.
+	KeyGuards bool
+	// MergeIfs: if-conversion of branches whose arms rejoin (see merge.go).
+	MergeIfs bool
+	indConds map[string]*Cond
+	pdoms    map[*ssa.Function]map[*ssa.BasicBlock]*ssa.BasicBlock
+	// AssumeNoTruncation: narrowing integer conversions keep their linear form (documented domain
+	// restriction "lengths fit their fields").
+	AssumeNoTruncation bool
 	// SuffixLo: documented input domains, by symbol-name suffix (e.g. ".optPacketSize" >= 0).
 	SuffixLo map[string]int64
 	// NonZeroLo: once a symbol with this suffix is known to be non-zero it is at least this large
@@ -93,6 +105,7 @@ type Interp struct {
 	candFailed map[*ssa.BasicBlock]bool
 	pureCache  map[*ssa.Function]int
 	pureForms  map[string]lin.Form
+	prodAxioms map[string][]lin.Fact
 }
 
 // New creates an interpreter.
@@ -100,7 +113,20 @@ func New(p *load.Program, h Hooks) *Interp {
 	return &Interp{P: p, Hooks: h, lo: map[string]int64{}, hi: map[string]int64{}, SymLo: map[string]int64{}, SymHi: map[string]int64{},
 		summaries: map[*ssa.Function]*Summary{}, inProgress: map[*ssa.Function]bool{}, MaxPaths: 300000, MaxOut: 48,
 		candidates: map[*ssa.BasicBlock][]*ssa.Phi{}, candFailed: map[*ssa.BasicBlock]bool{},
-		pureCache: map[*ssa.Function]int{}, pureForms: map[string]lin.Form{}}
+		pureCache: map[*ssa.Function]int{}, pureForms: map[string]lin.Form{}, indConds: map[string]*Cond{}, prodAxioms: map[string][]lin.Fact{},
+		pdoms: map[*ssa.Function]map[*ssa.BasicBlock]*ssa.BasicBlock{}}
+}
+
+// insideDifferentLoop: the branch block and its join are not in the same set of loops (merging across a
+// loop boundary would bypass the loop handling).
+func insideDifferentLoop(li *loopInfo, b, join *ssa.BasicBlock) bool {
+	for h, body := range li.body {
+		_ = h
+		if body[b] != body[join] {
+			return true
+		}
+	}
+	return false
 }
 
 // FieldInv is a type-level field invariant.
@@ -201,7 +227,13 @@ type State struct {
 	inA     map[*ssa.BasicBlock]bool
 	acc     map[*ssa.BasicBlock]*loopAcc
 	cand    map[*ssa.BasicBlock][]*ssa.Phi           // candidate invariants len(phi)==0 assumed at this header
-	reqs    *[]Requirement
+	// loop summation (engine A)
+	sum       map[*ssa.BasicBlock]*sumCollector
+	sumStart  map[*ssa.BasicBlock]sumMark
+	loopIndex map[ssa.Value]bool
+	Events    []Event
+	stops     []stopFrame // merge points the current path is being run up to (innermost last)
+	reqs      *[]Requirement
 	depth   int
 }
 
@@ -247,7 +279,8 @@ func (st *State) clone() *State {
 	for k, v := range st.loopMk {
 		n.loopMk[k] = v
 	}
-	// phaseB / inA / acc / cand are copy-on-write (replaced, never mutated in place)
+	// phaseB / inA / acc / cand / sum / sumStart / loopIndex are copy-on-write (replaced, never mutated in place)
+	n.Events = append([]Event{}, st.Events...)
 	return &n
 }
 
@@ -266,7 +299,44 @@ func (st *State) MarkedSince(h *ssa.BasicBlock, name string) bool {
 }
 
 // Prove tries to show f >= 0 in this state.
-func (st *State) Prove(f lin.Form) bool { return lin.Prove(f, st.ip, st.Facts, 3) }
+func (st *State) Prove(f lin.Form) bool {
+	if lin.Prove(f, st.ip, st.Facts, 3) {
+		return true
+	}
+	// product axioms (indicator·t <= t for t >= 0) that speak about symbols of f
+	var ax []lin.Fact
+	for _, s := range f.Syms() {
+		if a, ok := st.ip.prodAxioms[s]; ok {
+			ax = append(ax, a...)
+		}
+	}
+	if len(ax) == 0 {
+		return false
+	}
+	return lin.Prove(f, st.ip, append(append([]lin.Fact{}, st.Facts...), ax...), 3)
+}
+
+// ReadsThroughNil: the path assumes pointer X nil although one of the forms mentions cells below X: the
+// function dereferenced X on this path, which panics.
+func (st *State) ReadsThroughNil(forms ...lin.Form) bool {
+	for k, v := range st.Preds {
+		if !v || !strings.HasPrefix(k, "nil:") {
+			continue
+		}
+		x := k[4:]
+		if x == "" {
+			continue
+		}
+		for _, f := range forms {
+			for _, s := range f.Syms() {
+				if strings.Contains(s, x+".") || strings.Contains(s, x+"/") {
+					return true
+				}
+			}
+		}
+	}
+	return false
+}
 
 // Require proves f >= 0 or lifts it to a precondition of the current function when it only speaks
 // about parameter-rooted symbols. Returns (proved, lifted).
@@ -823,7 +893,10 @@ func (ip *Interp) Summarize(f *ssa.Function) *Summary {
 		pending: map[string]pendingAdv{}, loops: map[*ssa.BasicBlock]map[string]lin.Form{}, marks: map[string]int{}, loopMk: map[*ssa.BasicBlock]map[string]int{},
 		phaseB: map[*ssa.BasicBlock]bool{}, inA: map[*ssa.BasicBlock]bool{}, acc: map[*ssa.BasicBlock]*loopAcc{}, reqs: &sum.Reqs}
 	for _, p := range f.Params {
-		st.eval(p)
+		pv := st.eval(p)
+		if isWriterPtr(p.Type()) && pv.K == KPtr && pv.O != nil {
+			st.Bits(pv.O) // materialise the emitted-bits counter of parameter writers
+		}
 	}
 	for _, fv := range f.FreeVars {
 		st.eval(fv)
@@ -834,6 +907,18 @@ func (ip *Interp) Summarize(f *ssa.Function) *Summary {
 	var run func(st *State, b, from *ssa.BasicBlock)
 	var runFrom func(st *State, b *ssa.BasicBlock, start int)
 	branch := func(st *State, b *ssa.BasicBlock, x *ssa.If) {
+		if col := st.sum[b]; col != nil && col.nForm == nil {
+			// header of a loop being summarised: one symbolic iteration, always into the body
+			bv := st.eval(col.cl.bound)
+			if bv.K == KInt {
+				f := bv.F
+				col.nForm = &f
+			} else {
+				col.bad = "loop bound is not an integer form"
+			}
+			run(st, b.Succs[col.cl.bodyS], b)
+			return
+		}
 		c := st.eval(x.Cond)
 		var cond *Cond
 		if c.K == KBool {
@@ -849,15 +934,62 @@ func (ip *Interp) Summarize(f *ssa.Function) *Summary {
 			st.edgePending(cond, false)
 			run(st, b.Succs[1], b)
 		default:
+			var join *ssa.BasicBlock
+			if ip.MergeIfs && !li.headers[b] {
+				join = joinBlock(b, li)
+				if join != nil && (li.headers[join] || insideDifferentLoop(li, b, join)) {
+					join = nil
+				}
+			}
 			t := st.clone()
 			t.Assume(cond, true)
 			t.edgePending(cond, true)
 			t.Trace = append(t.Trace, cond.String())
+			if join == nil {
+				run(t, b.Succs[0], b)
+				st.Assume(cond, false)
+				st.edgePending(cond, false)
+				st.Trace = append(st.Trace, "!"+cond.String())
+				run(st, b.Succs[1], b)
+				return
+			}
+			saved := st.stops
+			nEv := len(st.Events)
+			var arrT, arrE []arrival
+			t.stops = append(append([]stopFrame{}, saved...), stopFrame{at: join, into: &arrT})
 			run(t, b.Succs[0], b)
 			st.Assume(cond, false)
 			st.edgePending(cond, false)
 			st.Trace = append(st.Trace, "!"+cond.String())
+			st.stops = append(append([]stopFrame{}, saved...), stopFrame{at: join, into: &arrE})
 			run(st, b.Succs[1], b)
+			cont := func(ns *State, phis map[*ssa.Phi]Val) {
+				ns.stops = saved
+				if n := len(saved); n > 0 && saved[n-1].at == join {
+					*saved[n-1].into = append(*saved[n-1].into, arrival{st: ns, phis: phis})
+					return
+				}
+				for phi, v := range phis {
+					ns.vals[phi] = v
+				}
+				runFrom(ns, join, 0)
+			}
+			if len(arrT) == 1 && len(arrE) == 1 && !pureGuard(arrT[0], arrE[0], nEv) {
+				m := ip.mergeStates(cond, arrT[0].st, arrE[0].st, nEv)
+				ind := ip.indicator(cond)
+				phis := map[*ssa.Phi]Val{}
+				for phi, vt := range arrT[0].phis {
+					phis[phi] = ip.mergeVals(cond, ind, vt, arrE[0].phis[phi], arrT[0].st)
+				}
+				cont(m, phis)
+				return
+			}
+			for _, a := range arrT {
+				cont(a.st, a.phis)
+			}
+			for _, a := range arrE {
+				cont(a.st, a.phis)
+			}
 		}
 	}
 	runFrom = func(st *State, b *ssa.BasicBlock, start int) {
@@ -915,10 +1047,34 @@ func (ip *Interp) Summarize(f *ssa.Function) *Summary {
 			sum.Truncated = true
 			return
 		}
+		if n := len(st.stops); n > 0 && st.stops[n-1].at == b && from != nil {
+			// reached the merge point this arm is being run up to
+			phis := map[*ssa.Phi]Val{}
+			idx := -1
+			for i, p := range b.Preds {
+				if p == from {
+					idx = i
+				}
+			}
+			for _, in := range b.Instrs {
+				phi, ok := in.(*ssa.Phi)
+				if !ok {
+					break
+				}
+				phis[phi] = st.eval(phi.Edges[idx])
+			}
+			*st.stops[n-1].into = append(*st.stops[n-1].into, arrival{st: st, phis: phis})
+			return
+		}
 		// loop entry / back edge handling
 		exactEntry := false
 		if li.headers[b] && from != nil {
 			if li.backEdges[[2]*ssa.BasicBlock{from, b}] {
+				if st.sum[b] != nil {
+					st.sumBackEdge(b, from)
+					sum.Paths++
+					return
+				}
 				if ip.Hooks != nil {
 					ip.Hooks.BackEdge(st, from, b)
 				}
@@ -928,6 +1084,13 @@ func (ip *Interp) Summarize(f *ssa.Function) *Summary {
 					fmt.Printf("TRACE %s backedge %s->%s path=[%s]\n", f.Name(), from, b, strings.Join(st.Trace, "; "))
 				}
 				return
+			}
+			if ip.SumLoops && !st.phaseB[b] {
+				if cl := findCountedLoop(b, li.body[b]); cl != nil {
+					if st.sumLoop(b, from, li, cl, run, runFrom) {
+						return
+					}
+				}
 			}
 			if !st.phaseB[b] {
 				// phase A: the first iteration runs on the exact entry state
@@ -1070,6 +1233,7 @@ func (st *State) havocLoop(h *ssa.BasicBlock, body map[*ssa.BasicBlock]bool) {
 	ip := st.ip
 	fields := map[string]bool{}
 	iterTouched := false
+	anyCall := false
 	var note func(v ssa.Value)
 	note = func(v ssa.Value) {
 		switch a := v.(type) {
@@ -1086,6 +1250,7 @@ func (st *State) havocLoop(h *ssa.BasicBlock, body map[*ssa.BasicBlock]bool) {
 			case *ssa.Store:
 				note(x.Addr)
 			case ssa.CallInstruction:
+				anyCall = true
 				cc := x.Common()
 				for _, a := range cc.Args {
 					if isIterPtr(a.Type()) {
@@ -1113,6 +1278,17 @@ func (st *State) havocLoop(h *ssa.BasicBlock, body map[*ssa.BasicBlock]bool) {
 		last := k
 		if i := strings.LastIndexByte(k, '.'); i >= 0 {
 			last = k[i+1:]
+		}
+		if last == "#bits" {
+			if anyCall {
+				s := k[:len(k)-6] + "#bits@" + h.String()
+				ip.SetBounds(s, 0, lin.PosInf)
+				if v.K == KInt {
+					st.Facts = append(st.Facts, lin.Fact{F: lin.Sym(s).Sub(v.F)})
+				}
+				st.mem[k] = IntVal(lin.Sym(s))
+			}
+			continue
 		}
 		if last == "#cur" {
 			if iterTouched {
@@ -1430,6 +1606,9 @@ func (st *State) makeOutcome(f *ssa.Function, res []Val) *Outcome {
 	}
 	ei := ssau.ErrorResultIndex(f.Signature)
 	if ei >= 0 && ei < len(res) {
+		if res[ei].K == KUnknown && res[ei].Sym != "" {
+			res[ei] = Val{K: KErr, Sym: res[ei].Sym}
+		}
 		if res[ei].K == KErr {
 			o.ErrNil = res[ei].ErrNil
 			if o.ErrNil == Maybe && res[ei].Sym != "" {
@@ -1487,6 +1666,9 @@ func (st *State) makeOutcome(f *ssa.Function, res []Val) *Outcome {
 			root = k[:i]
 		}
 		if strings.HasPrefix(root, "$") || visible[root] {
+			if strings.HasPrefix(root, "$") && isDefaultCell(k, v) {
+				continue // only read, never written: the caller's own view of the cell stays valid
+			}
 			o.Mem[k] = v
 		}
 	}
@@ -1547,9 +1729,10 @@ func (st *State) makeOutcome(f *ssa.Function, res []Val) *Outcome {
 			o.NE = append(o.NE, ne)
 		}
 	}
+	o.Events = append([]Event{}, st.Events...)
 	o.ParamConds = map[string]bool{}
 	for k, v := range st.Preds {
-		if strings.HasPrefix(k, "$") && !strings.Contains(k, "~") {
+		if (strings.HasPrefix(k, "$") || strings.HasPrefix(k, "nil:$")) && !strings.Contains(k, "~") {
 			o.ParamConds[k] = v
 		}
 		if strings.HasPrefix(k, "pure:") {
@@ -1568,6 +1751,30 @@ func (st *State) makeOutcome(f *ssa.Function, res []Val) *Outcome {
 	}
 	o.key = outcomeKey(o, st)
 	return o
+}
+
+// isDefaultCell: the value is exactly the symbolic default a load of that cell produces.
+func isDefaultCell(k string, v Val) bool {
+	switch v.K {
+	case KInt:
+		return v.F.Equal(lin.Sym(k))
+	case KBool:
+		return v.B != nil && v.B.Op == CPred && v.B.Key == k
+	case KPtr:
+		return v.O != nil && v.Sym == "" && v.O.ID == strings.ReplaceAll(k, ".", "/")
+	case KSlice:
+		return v.S.ID == k && v.S.Len.Equal(lin.Sym("len("+k+")"))
+	case KErr, KUnknown:
+		return v.Sym == k
+	case KStruct:
+		for p, fv := range v.Fields {
+			if !isDefaultCell(k+"."+p, fv) {
+				return false
+			}
+		}
+		return true
+	}
+	return false
 }
 
 func outcomeKey(o *Outcome, st *State) string {
@@ -1595,7 +1802,7 @@ func outcomeKey(o *Outcome, st *State) string {
 	sb.WriteString("|")
 	var ks []string
 	for k, v := range o.Mem {
-		if strings.HasSuffix(k, ".#cur") {
+		if strings.HasSuffix(k, ".#cur") || strings.HasSuffix(k, ".#bits") {
 			ks = append(ks, k+"="+v.String())
 		}
 	}
@@ -1611,6 +1818,10 @@ func outcomeKey(o *Outcome, st *State) string {
 	}
 	sort.Strings(ps)
 	sb.WriteString(strings.Join(ps, ";"))
+	if st.ip.KeyGuards {
+		sb.WriteString("|")
+		sb.WriteString(strings.Join(st.ip.canonConstraints(o.Facts, o.NE), "&"))
+	}
 	return sb.String()
 }
 
@@ -1645,6 +1856,14 @@ func joinOutcome(a, b *Outcome, ip *Interp) {
 			if a.Results[i].K == KPtr && b.Results[i].K == KPtr {
 				continue // both non-nil pointers to objects whose cells were joined above
 			}
+			if a.Results[i].K == KErr && b.Results[i].K == KErr {
+				e := Val{K: KErr, Sym: ip.fresh("joinerr")}
+				if a.Results[i].ErrNil == b.Results[i].ErrNil {
+					e.ErrNil = a.Results[i].ErrNil
+				}
+				a.Results[i] = e
+				continue
+			}
 			a.Results[i] = Val{K: KUnknown, Sym: ip.fresh("join")}
 		}
 	}
@@ -1663,6 +1882,9 @@ func joinOutcome(a, b *Outcome, ip *Interp) {
 		if !b.Marks[k] {
 			delete(a.Marks, k)
 		}
+	}
+	if eventsSig(a.Events) != eventsSig(b.Events) {
+		a.Events = nil
 	}
 	for k, v := range a.ParamConds {
 		if w, ok := b.ParamConds[k]; !ok || w != v {
@@ -1793,8 +2015,48 @@ func widen(outs []Outcome, ip *Interp, f *ssa.Function) []Outcome {
 				g.Facts = append(g.Facts, lin.Fact{F: lin.Sym(s).Sub(lin.Sym(it + "#cur")).AddC(-lb)})
 			}
 		}
+		if e != No {
+			ip.widenCounts(g, outs, e)
+		}
 		g.key = fmt.Sprintf("widened:%d", e)
 		res = append(res, *g)
 	}
 	return res
+}
+
+// widenCounts keeps, across widening, the relation "bits emitted to a parameter writer = 8 × returned
+// count" when every merged outcome satisfies it: the count becomes a fresh non-negative symbol S and the
+// writer's bit counter advances by 8·S.
+func (ip *Interp) widenCounts(g *Outcome, outs []Outcome, e Tri) {
+	for k := range g.Mem {
+		if !strings.HasSuffix(k, ".#bits") || !strings.HasPrefix(k, "$") {
+			continue
+		}
+		w := k[:len(k)-6]
+		in := lin.Sym(w + "#bits")
+		all, any := true, false
+		for i := range outs {
+			o := outs[i]
+			if o.ErrNil != e {
+				continue
+			}
+			any = true
+			bv, ok := o.Mem[k]
+			if !ok || bv.K != KInt || len(o.Results) == 0 || o.Results[0].K != KInt {
+				all = false
+				break
+			}
+			if !bv.F.Sub(in).Equal(o.Results[0].F.Scale(8)) {
+				all = false
+				break
+			}
+		}
+		if !all || !any {
+			continue
+		}
+		s := ip.fresh(w + "#count")
+		ip.SetBounds(s, 0, lin.PosInf)
+		g.Results[0] = IntVal(lin.Sym(s))
+		g.Mem[k] = IntVal(in.Add(lin.Sym(s).Scale(8)))
+	}
 }
